@@ -355,7 +355,12 @@ pub fn run_image(
     let n_app = if thorough { 4 } else { 2 };
     for a in 0..n_app {
         let mut sc = base.clone();
-        let n = cr.urange(1, if thorough { 4096 } else { 1024 });
+        let n = if cr.chance(1, 12) {
+            // now and then an appended tail that pushes the file across a size threshold
+            *cr.pick(&[4097usize, 65_537, 70_000, 140_000])
+        } else {
+            cr.urange(1, if thorough { 4096 } else { 1024 })
+        };
         let mut suf = vec![0u8; n];
         match (a + cr.usize_below(4)) % 4 {
             0 => {}
